@@ -51,6 +51,8 @@ type caseSpec struct {
 	Clauses    []clauseSpec `json:"clauses"`
 	Calls      []callSpec   `json:"calls"`
 	Eval       bool         `json:"also_eval"`
+	// Repeat: the last call is made this many more times (thousands of selections of one stub: the tail stays the last element)
+	Repeat int `json:"repeat_last_call,omitempty"`
 }
 
 func guard(f func()) (pv interface{}) {
@@ -257,7 +259,15 @@ func runCase(ci interface{}, s *vkit.Stats, prop string) error {
 	}
 	nontrivial := false
 	var fp []string
-	for n, call := range c.Calls {
+	calls := c.Calls
+	if c.Repeat > 0 && len(calls) > 0 {
+		calls = append([]callSpec(nil), calls...)
+		for i := 0; i < c.Repeat; i++ {
+			calls = append(calls, c.Calls[len(c.Calls)-1])
+		}
+		s.Class("history-with-thousands-of-calls-of-one-stub")
+	}
+	for n, call := range calls {
 		args := make([]reflect.Value, len(call.Args))
 		for i, idx := range call.Args {
 			args[i] = t.val(i, idx)
@@ -362,7 +372,9 @@ func runCase(ci interface{}, s *vkit.Stats, prop string) error {
 				nontrivial = true
 			}
 		}
-		fp = append(fp, fmt.Sprint(stub))
+		if n < len(c.Calls) {
+			fp = append(fp, fmt.Sprint(stub))
+		}
 	}
 	if prop == "C05" {
 		long := 0
@@ -410,6 +422,11 @@ func genCase(maxSeq, minCalls, maxCalls int) func(rt *rapid.T) interface{} {
 			}
 		}
 		nc := rapid.IntRange(0, 5).Draw(rt, "nclauses")
+		whenOnly := false
+		if rapid.IntRange(0, 9).Draw(rt, "many-clauses?") == 0 {
+			nc = rapid.IntRange(13, 40).Draw(rt, "nclauses-many") // many conditions on one stub: registration order still decides
+			whenOnly = rapid.IntRange(0, 2).Draw(rt, "when-only") != 0
+		}
 		if !c.HasDefault && nc == 0 {
 			nc = 1
 		}
@@ -428,7 +445,7 @@ func genCase(maxSeq, minCalls, maxCalls int) func(rt *rapid.T) interface{} {
 				cl.Split = rapid.IntRange(1, cl.Seq-1).Draw(rt, "split")
 			}
 			first := i == 0 && !c.HasDefault
-			if !first && rapid.IntRange(0, 3).Draw(rt, "in-clause") == 0 {
+			if !first && !whenOnly && rapid.IntRange(0, 3).Draw(rt, "in-clause") == 0 {
 				cl.Kind = "in"
 				na := rapid.IntRange(1, 3).Draw(rt, "nalts")
 				ar := arity()
@@ -504,6 +521,9 @@ func genCase(maxSeq, minCalls, maxCalls int) func(rt *rapid.T) interface{} {
 			c.Calls = append(c.Calls, call)
 		}
 		c.Eval = rapid.Bool().Draw(rt, "eval")
+		if maxSeq > 1 && rapid.IntRange(0, 19).Draw(rt, "repeat?") == 0 {
+			c.Repeat = rapid.IntRange(4200, 9000).Draw(rt, "repeat")
+		}
 		return c
 	}
 }
@@ -636,6 +656,96 @@ func TestVerifC05Concurrent(t *testing.T) {
 		},
 		Run: runConc}
 	s := p.Main(t, vkit.Scale(250, 4000))
+	if !vkit.Replaying() {
+		s.Done()
+	}
+}
+
+// ---- sequences that are extended while they are being consumed (the tail is never reached before the last extension) ----
+
+type growCase struct {
+	Steps []int `json:"steps"` // alternately: number of results appended, number of calls made (clamped so that the tail is not reached early)
+	Tail  int   `json:"tail_calls"`
+	Cond  bool  `json:"on_a_condition"`
+}
+
+func runGrow(ci interface{}, s *vkit.Stats) error {
+	c := ci.(*growCase)
+	b := mocker.Create()
+	defer b.Reset()
+	var w *mocker.When
+	var values []int
+	next := 5000
+	calls := 0
+	appendN := func(n int) {
+		for i := 0; i < n; i++ {
+			next++
+			values = append(values, next)
+			switch {
+			case w == nil && c.Cond:
+				w = b.Func(f1).Return(-7).When(3).Return(next)
+			case w == nil:
+				w = b.Func(f1).Return(next)
+			default:
+				w = w.AndReturn(next)
+			}
+		}
+	}
+	arg := 0
+	if c.Cond {
+		arg = 3
+	}
+	for i, n := range c.Steps {
+		if i%2 == 0 {
+			if pv := guard(func() { appendN(n) }); pv != nil {
+				return fmt.Errorf("extending the sequence to %d results panicked: %v", len(values)+n, pv)
+			}
+			continue
+		}
+		for k := 0; k < n && calls < len(values)-1; k++ {
+			var got int
+			if pv := guard(func() { got = f1(arg) }); pv != nil {
+				return fmt.Errorf("call %d of a sequence of %d results panicked: %v", calls+1, len(values), pv)
+			}
+			if got != values[calls] {
+				return fmt.Errorf("call %d received %d; the sequence configured so far (%d results, extended %d times while being consumed) has %d at that position", calls+1, got, len(values), i/2+1, values[calls])
+			}
+			calls++
+		}
+	}
+	if len(values) == 0 {
+		return nil
+	}
+	for ; calls < len(values)+c.Tail; calls++ {
+		want := values[len(values)-1]
+		if calls < len(values) {
+			want = values[calls]
+		}
+		var got int
+		if pv := guard(func() { got = f1(arg) }); pv != nil {
+			return fmt.Errorf("call %d panicked: %v", calls+1, pv)
+		}
+		if got != want {
+			return fmt.Errorf("call %d of a sequence of %d results received %d, want %d", calls+1, len(values), got, want)
+		}
+	}
+	s.Class("sequence-extended-while-consumed")
+	if len(values) >= 64 {
+		s.Class("sequence-extended-while-consumed/>=64-results")
+	}
+	s.NonTrivial(fmt.Sprint(c.Steps, c.Cond))
+	return nil
+}
+
+func TestVerifC05Growing(t *testing.T) {
+	quiet()
+	p := &vkit.Prop{ID: "C05", Unit: "growing-sequences", New: func() interface{} { return &growCase{} },
+		Gen: func(rt *rapid.T) interface{} {
+			return &growCase{Steps: rapid.SliceOfN(rapid.OneOf(rapid.IntRange(1, 8), rapid.IntRange(1, 90)), 2, 12).Draw(rt, "steps"),
+				Tail: rapid.IntRange(1, 6).Draw(rt, "tail"), Cond: rapid.Bool().Draw(rt, "cond")}
+		},
+		Run: runGrow}
+	s := p.Main(t, vkit.Scale(600, 6000))
 	if !vkit.Replaying() {
 		s.Done()
 	}
